@@ -55,7 +55,10 @@ func (core *JApiCore) getIncludedFilePath(keyword *scanner.Lexeme) (string, *jer
 		return "", requiredParameterNotSpecified(keyword)
 	}
 
-	path := parameter.Value().String()
+	path := directive.UnescapeParameter(parameter.Value()).String()
+	if path == "" {
+		return "", requiredParameterNotSpecified(keyword)
+	}
 
 	if err := validateIncludeFileName(path); err != nil {
 		return "", incorrectParameter(keyword, path, err.Error())
